@@ -52,7 +52,7 @@ func (p c04Prop) RunFn() string { return "run_C04" }
 func (p c04Prop) Workers() int  { return 48 }
 func (p c04Prop) Journal() bool { return true }
 func (p c04Prop) Rule() string {
-	return p.s.rule + " PLUS application sends: histories on ONE Client (a TLS session, its loss, a reconnection on which the peer withholds <proceed/> or presents an untrusted certificate, a further good connection) x Insecure x TLS config, with client.Send called from another goroutine while the attempt runs (1-2 sends, triggered by what the server has received) and after each attempt; every stanza carries a unique marker that is looked for in the bytes the server received outside TLS (before <proceed/>, underneath a failed handshake, after it) and in the decrypted stream; for every connection with Insecure=false the clear-text byte log must reduce to stream headers, <starttls/> and </stream:stream>. PLUS WebSocket transport: a loopback HTTPS endpoint (certificate of a test CA trusted by the process) and a plain one; address wss:// or ws://, answer to the opening handshake = chain of 0-10 redirects over {https, http} (301/302/307/308), Insecure on/off; the endpoint reached completes SASL PLAIN + bind and records whether <auth/> arrived on a TLS connection"
+	return p.s.rule + " PLUS application sends: histories on ONE Client (a TLS session, its loss, a reconnection on which the peer withholds <proceed/> or presents an untrusted certificate, a further good connection) x Insecure x TLS config, with client.Send called from another goroutine while the attempt runs (1-2 sends, triggered by what the server has received) and after each attempt; every stanza carries a unique marker that is looked for in the bytes the server received outside TLS (before <proceed/>, underneath a failed handshake, after it) and in the decrypted stream; for every connection with Insecure=false the clear-text byte log must reduce to stream headers, <starttls/> and </stream:stream>. PLUS stream-management retransmissions: a stream-managed session over verified TLS with 1-3 stanzas sent and never acknowledged, its loss, a held-up reconnection of the same Client (proceed withheld / certificate refused) during which 1-2 acknowledgements <a h/> that leave something held are applied -- routed through the router as the go routine left behind by the old receiver does, or through the exported SendMissingStz -- with or without application sends next to them, optionally a further good connection with sends and an acknowledgement; the markers of the held stanzas are counted in the clear-text and decrypted logs of the server before and after each acknowledgement (retransmitted where?). PLUS WebSocket transport: a loopback HTTPS endpoint (certificate of a test CA trusted by the process) and a plain one; address wss:// or ws://, answer to the opening handshake = chain of 0-10 redirects over {https, http} (301/302/307/308), Insecure on/off; the endpoint reached completes SASL PLAIN + bind and records whether <auth/> arrived on a TLS connection"
 }
 
 func (p c04Prop) Gen(r *rand.Rand, tier string) []interface{} {
@@ -62,6 +62,10 @@ func (p c04Prop) Gen(r *rand.Rand, tier string) []interface{} {
 		out = append(out, c04Case{Sess: &v})
 	}
 	for _, v := range genC04Gate(r, tier) {
+		v := v
+		out = append(out, c04Case{Sess: &v})
+	}
+	for _, v := range genC04Resend(r, tier) {
 		v := v
 		out = append(out, c04Case{Sess: &v})
 	}
@@ -112,6 +116,36 @@ func sendSx(so sendObs) Sx {
 	}
 }
 
+// resendSx: a retransmission. Through the router nobody learns of an error: only where the held stanzas showed up again.
+func resendSx(so sendObs) Sx {
+	if so.NoErr {
+		if so.Where == "" {
+			return L(Z(0))
+		}
+		return L(Z(1), B(so.Where == "tls"))
+	}
+	return sendSx(so)
+}
+
+// nDuringOf: how many sends and how many acknowledgements the scenario makes while the attempt runs.
+func nDuringOf(sc sessConn) (sends, acks int) {
+	if sc.SendDuring == "" || sc.NoDial {
+		return 0, 0
+	}
+	sends = maxInt(sc.NDuring, 1)
+	if sc.NoSendDuring {
+		sends = 0
+	}
+	return sends, len(sc.AckDuring)
+}
+
+func minInt(a, b int) int {
+	if a < b {
+		return a
+	}
+	return b
+}
+
 func (p c04Prop) Run(in interface{}) Sx {
 	c := in.(c04Case)
 	if c.Wss != nil {
@@ -123,11 +157,28 @@ func (p c04Prop) Run(in interface{}) Sx {
 	}
 	var per []Sx
 	for ci := range c.Sess.Conns {
+		// in the order of the model's trace: sends during the attempt, retransmissions during it, sends after, retransmissions after
 		var ss []Sx
+		var snd, rsn []sendObs
 		if ci < len(ob.sends) {
-			for _, so := range ob.sends[ci] {
-				ss = append(ss, sendSx(so))
-			}
+			snd = ob.sends[ci]
+		}
+		if ci < len(ob.resends) {
+			rsn = ob.resends[ci]
+		}
+		nd, nrd := nDuringOf(c.Sess.Conns[ci])
+		nd, nrd = minInt(nd, len(snd)), minInt(nrd, len(rsn))
+		for _, so := range snd[:nd] {
+			ss = append(ss, sendSx(so))
+		}
+		for _, so := range rsn[:nrd] {
+			ss = append(ss, resendSx(so))
+		}
+		for _, so := range snd[nd:] {
+			ss = append(ss, sendSx(so))
+		}
+		for _, so := range rsn[nrd:] {
+			ss = append(ss, resendSx(so))
 		}
 		res := ""
 		if !c.Sess.Insecure && ci < len(ob.clear) {
@@ -151,21 +202,19 @@ func (p c04Prop) InputObs(in interface{}, obs Sx) Sx {
 	}
 	var plans []Sx
 	for _, sc := range c.Sess.Conns {
-		var during []Sx
-		if sc.SendDuring != "" && !sc.NoDial {
-			n := sc.NDuring
-			if n < 1 {
-				n = 1
-			}
-			for j := 0; j < n; j++ {
-				during = append(during, Z(2)) // after the client's second request (stream header, <starttls/>)
-			}
+		var during, rduring []Sx
+		nd, nrd := nDuringOf(sc)
+		for j := 0; j < nd; j++ {
+			during = append(during, Z(2)) // after the client's second request (stream header, <starttls/>)
 		}
-		after := sc.SendAfter
+		for j := 0; j < nrd; j++ {
+			rduring = append(rduring, Z(2))
+		}
+		after, rafter := sc.SendAfter, len(sc.AckAfter)
 		if sc.NoDial {
-			after = 0
+			after, rafter = 0, 0
 		}
-		plans = append(plans, L(LS(during), Zi(after)))
+		plans = append(plans, L(LS(during), Zi(after), LS(rduring), Zi(rafter)))
 	}
 	return L(Z(0), sessInputSx(*c.Sess), LS(plans))
 }
@@ -187,6 +236,7 @@ func (p c04Prop) Oracle(in interface{}, obs Sx) (string, string) {
 			break
 		}
 		sc := c.Sess.Conns[ci]
+		nd, nrd := nDuringOf(sc)
 		for j, so := range pc.L[0].L {
 			arrived, tlsCh := false, false
 			switch so.L[0].Z {
@@ -194,17 +244,22 @@ func (p c04Prop) Oracle(in interface{}, obs Sx) (string, string) {
 				arrived, tlsCh = true, so.L[1].Z == 1
 			}
 			when := "after the attempt"
-			if sc.SendDuring != "" && j < maxInt(sc.NDuring, 1) {
+			if j < nd+nrd {
 				when = "while the connection attempt was running (" + sc.SendDuring + ")"
 			}
+			resend := (j >= nd && j < nd+nrd) || j >= nd+nrd+sc.SendAfter
+			what, sig := "the stanza passed to Client.Send", "stanza"
+			if resend {
+				what, sig = "a stanza held for the stream-managed session, retransmitted on an acknowledgement ("+map[bool]string{true: "routed <a/>", false: "SendMissingStz"}[sc.AckVia == "route"]+")", "resend"
+			}
 			if arrived && !tlsCh && !c.Sess.Insecure {
-				return fmt.Sprintf("conn %d: the stanza passed to Client.Send %s was received by the server IN CLEAR (outside TLS) with Insecure=false", ci, when), "cleartext-stanza"
+				return fmt.Sprintf("conn %d: %s %s was received by the server IN CLEAR (outside TLS) with Insecure=false", ci, what, when), "cleartext-" + sig
 			}
 			if arrived && tlsCh && !c.Sess.tlsOutcome(sc.Cert) {
-				return fmt.Sprintf("conn %d: the stanza passed to Client.Send %s travelled inside TLS although the certificate (%s, tlsmode %d, servername %q) must not verify", ci, when, sc.Cert, c.Sess.TLSMode, c.Sess.ServerName), "unverified-tls-stanza"
+				return fmt.Sprintf("conn %d: %s %s travelled inside TLS although the certificate (%s, tlsmode %d, servername %q) must not verify", ci, what, when, sc.Cert, c.Sess.TLSMode, c.Sess.ServerName), "unverified-tls-" + sig
 			}
 			if so.L[0].Z == 3 {
-				return fmt.Sprintf("conn %d: Client.Send %s returned nil but the stanza never reached the server", ci, when), "send-lost"
+				return fmt.Sprintf("conn %d: %s %s: nil was returned but nothing reached the server", ci, what, when), "send-lost"
 			}
 		}
 		if res := string(bytesOf(pc.L[1])); res != "" {
@@ -231,7 +286,7 @@ func (p c04Prop) Key(in interface{}) (string, bool) {
 	var b strings.Builder
 	b.WriteString(k)
 	for _, sc := range c.Sess.Conns {
-		fmt.Fprintf(&b, "{%s %d %d}", sc.SendDuring, sc.NDuring, sc.SendAfter)
+		fmt.Fprintf(&b, "{%s %d %d %v %v %s %v}", sc.SendDuring, sc.NDuring, sc.SendAfter, sc.AckDuring, sc.AckAfter, sc.AckVia, sc.NoSendDuring)
 	}
 	return b.String(), nt
 }
@@ -295,6 +350,73 @@ func genC04Gate(r *rand.Rand, tier string) []sessIn {
 						in.Conns = conns
 						out = append(out, in)
 					}
+				}
+			}
+		}
+	}
+	return out
+}
+
+// genC04Resend: the retransmission path. A stream-managed session over verified TLS on which k stanzas are sent and
+// never acknowledged (sometimes an acknowledgement is applied right there: the rest goes out again inside TLS); its
+// loss; a reconnection of the same Client that is held up (the peer withholds <proceed/>, or presents a certificate the
+// client refuses) during which acknowledgements <a h/> are applied -- through the router, as the go routine left behind
+// by the old connection's receiver does, or through the exported SendMissingStz -- with or without application sends
+// next to them; sometimes a further good connection with sends and an acknowledgement (the gate is open again).
+func genC04Resend(r *rand.Rand, tier string) []sessIn {
+	var out []sessIn
+	reps := 1
+	if tier == "thorough" {
+		reps = 5
+	}
+	type pv struct{ phase, via string }
+	for rep := 0; rep < reps; rep++ {
+		for _, insecure := range []bool{false, true} {
+			for _, tlsmode := range []int{0, 1} {
+				for _, x := range []pv{{"starttls", "route"}, {"starttls", "direct"}, {"certfail", "direct"}} {
+					in := sessIn{Insecure: insecure, TLSMode: tlsmode, SMEnable: true, SMResume: r.Intn(2) == 0, Tag: "resend:" + x.phase + ":" + x.via}
+					if x.phase == "certfail" && in.tlsOutcome("untrusted") {
+						continue
+					}
+					if insecure && tier != "thorough" && r.Intn(2) == 0 {
+						continue
+					}
+					k := 1 + r.Intn(3)
+					g1, _ := goodConn(in, shape{tlsOffer: 1 + r.Intn(2), sess: r.Intn(3), smOffer: true}, "", "", "smq-"+fmt.Sprint(r.Intn(1000)), "true")
+					first := sessConn{Groups: g1, Cert: "valid", SendAfter: k, AckVia: "direct"}
+					h0 := 0
+					if k > 1 && r.Intn(2) == 0 {
+						h0 = r.Intn(k)
+						first.AckAfter = []int{h0}
+					}
+					att := sessConn{SendDuring: x.phase, AckVia: x.via, NoSendDuring: r.Intn(2) == 0, NDuring: 1, SendAfter: r.Intn(2)}
+					for n := 1 + r.Intn(2); n > 0; n-- {
+						h0 += r.Intn(k - h0) // never everything: at least one stanza stays held
+						att.AckDuring = append(att.AckDuring, h0)
+					}
+					g, labels := goodConn(in, shape{tlsOffer: 1 + r.Intn(2), smOffer: true}, "", "", "id", "true")
+					if x.phase == "starttls" {
+						for gi, l := range labels {
+							if l == "starttls" {
+								g = append(append([][]sItem{}, g[:gi]...), []sItem{{T: "wait", N: 1}})
+								break
+							}
+						}
+						att.Cert = "valid"
+					} else {
+						att.Cert = []string{"untrusted", "expired", "wronghost"}[r.Intn(3)]
+						if in.tlsOutcome(att.Cert) {
+							att.Cert = "untrusted"
+						}
+					}
+					att.Groups = g
+					conns := []sessConn{first, att}
+					if !insecure && r.Intn(2) == 0 { // (with Insecure the failed attempt keeps the old session: the next connection would try to resume it)
+						g3, _ := goodConn(in, shape{tlsOffer: 1, smOffer: true}, "", "", "smq3-"+fmt.Sprint(r.Intn(1000)), "true")
+						conns = append(conns, sessConn{Groups: g3, Cert: "valid", SendAfter: 2, AckAfter: []int{r.Intn(2)}, AckVia: "direct"})
+					}
+					in.Conns = conns
+					out = append(out, in)
 				}
 			}
 		}
